@@ -53,7 +53,10 @@ def run_plan(prop, tier, plan, replay=None):
         if tiers and tier not in tiers:
             continue
         what = e.pop("what")
-        results.append(rc.run_exec(tr, what, emit=True, backends=True, **e))
+        r_ = rc.run_exec(tr, what, emit=True, backends=True, **e)       # an emit entry may carry invariants: laws and cases from one run
+        if r_.violated or r_.deadlock:
+            rc.law_violation(vd, r_, what)
+        results.append(r_)
     simcases = []
     for sim in [plan.get("sim")] + list(plan.get("sims", [])):
         if not sim:
